@@ -3,6 +3,7 @@
 
 pub mod conv;
 pub mod r#gen;
+pub mod hgen;
 pub mod io;
 pub mod model;
 pub mod rawbam;
